@@ -40,6 +40,11 @@ pub struct CallSet {
     /// write the `##contig` header lines in reverse order (their `IDX` values, which are what BCF
     /// records refer to, stay the same)
     pub contig_lines_reversed: bool,
+    /// number of further (unused) INFO definitions in front of the FORMAT definitions: with 126 or
+    /// more, the dictionary index of GT no longer fits one byte in BCF
+    pub extra_info_defs: usize,
+    /// decorated records also carry INFO `AN=0` (a stale annotation: the genotypes are what they are)
+    pub stale_an: bool,
 }
 
 impl CallSet {
@@ -49,6 +54,8 @@ impl CallSet {
             contigs: vec!["chr1".into(), "chr2".into()],
             records: Vec::new(),
             contig_lines_reversed: false,
+            extra_info_defs: 0,
+            stale_an: false,
         }
     }
     /// Appends a plain biallelic record at the next position of contig 0.
@@ -84,14 +91,21 @@ pub fn vcf_header(cs: &CallSet, bcf_idx: bool) -> String {
         "##INFO=<ID=XI,Number=1,Type=Integer,Description=\"Extra info\"{}>\n",
         idx(1)
     ));
+    for k in 0..cs.extra_info_defs {
+        s.push_str(&format!("##INFO=<ID=Y{k},Number=1,Type=Integer,Description=\"Unused annotation {k}\"{}>\n", idx(2 + k)));
+    }
+    let base = 2 + cs.extra_info_defs;
     s.push_str(&format!(
         "##FORMAT=<ID=GT,Number=1,Type=String,Description=\"Genotype\"{}>\n",
-        idx(2)
+        idx(base)
     ));
     s.push_str(&format!(
         "##FORMAT=<ID=XF,Number=1,Type=Integer,Description=\"Extra format\"{}>\n",
-        idx(3)
+        idx(base + 1)
     ));
+    if cs.stale_an {
+        s.push_str(&format!("##INFO=<ID=AN,Number=1,Type=Integer,Description=\"Total number of alleles in called genotypes\"{}>\n", idx(base + 2)));
+    }
     s.push_str("#CHROM\tPOS\tID\tREF\tALT\tQUAL\tFILTER\tINFO\tFORMAT");
     for n in &cs.samples {
         s.push('\t');
@@ -108,7 +122,7 @@ pub fn vcf_record_line(cs: &CallSet, r: &Record) -> String {
         r.alts.join(",")
     };
     if r.no_format() || r.no_gt_key() {
-        let mut s = format!("{}\t{}\t.\tA\t{}\t.\t.\t{}\t{}", cs.contigs[r.chrom], r.pos, alt, if r.decorated { "XI=5" } else { "." }, if r.no_format() { "." } else { "XF" });
+        let mut s = format!("{}\t{}\t.\tA\t{}\t.\t.\t{}\t{}", cs.contigs[r.chrom], r.pos, alt, if r.decorated { if cs.stale_an { "XI=5;AN=0" } else { "XI=5" } } else { "." }, if r.no_format() { "." } else { "XF" });
         for i in 0..r.gts.len() {
             s.push('\t');
             if r.no_format() {
@@ -125,7 +139,7 @@ pub fn vcf_record_line(cs: &CallSet, r: &Record) -> String {
         cs.contigs[r.chrom],
         r.pos,
         alt,
-        if r.decorated { "XI=5" } else { "." },
+        if r.decorated { if cs.stale_an { "XI=5;AN=0" } else { "XI=5" } } else { "." },
         if r.decorated { "GT:XF" } else { "GT" }
     );
     for (i, g) in r.gts.iter().enumerate() {
@@ -195,12 +209,29 @@ fn typed_string(s: &str, out: &mut Vec<u8>) {
 }
 
 pub fn bcf_record(r: &Record, n_samples: usize) -> Vec<u8> {
+    bcf_record_of(r, n_samples, 0, false)
+}
+
+/// A dictionary index as a typed integer (one byte up to 127, two bytes beyond).
+fn typed_key(idx: usize, out: &mut Vec<u8>) {
+    if idx <= 127 {
+        out.extend_from_slice(&[0x11, idx as u8]);
+    } else {
+        out.push(0x12);
+        out.extend_from_slice(&(idx as i16).to_le_bytes());
+    }
+}
+
+/// The BCF record under a header with `extra` further INFO definitions in front of GT (which moves
+/// the dictionary indices of GT, XF and AN) and, with `stale_an`, `AN=0` on decorated records.
+pub fn bcf_record_of(r: &Record, n_samples: usize, extra: usize, stale_an: bool) -> Vec<u8> {
+    let (gt_key, xf_key, an_key) = (2 + extra, 3 + extra, 4 + extra);
     let mut shared = Vec::new();
     shared.extend_from_slice(&(r.chrom as i32).to_le_bytes());
     shared.extend_from_slice(&((r.pos as i32) - 1).to_le_bytes());
     shared.extend_from_slice(&1i32.to_le_bytes()); // rlen
     shared.extend_from_slice(&0x7f80_0001u32.to_le_bytes()); // QUAL missing
-    let n_info: u16 = if r.decorated { 1 } else { 0 };
+    let n_info: u16 = if r.decorated { if stale_an { 2 } else { 1 } } else { 0 };
     let n_allele: u16 = 1 + r.alts.len() as u16;
     shared.extend_from_slice(&n_info.to_le_bytes());
     shared.extend_from_slice(&n_allele.to_le_bytes());
@@ -216,11 +247,15 @@ pub fn bcf_record(r: &Record, n_samples: usize) -> Vec<u8> {
     if r.decorated {
         shared.extend_from_slice(&[0x11, 1]); // key XI (idx 1)
         shared.extend_from_slice(&[0x11, 5]); // value 5
+        if stale_an {
+            typed_key(an_key, &mut shared);
+            shared.extend_from_slice(&[0x11, 0]); // value 0
+        }
     }
     let mut indiv = Vec::new();
     if r.no_format() || r.no_gt_key() {
         if r.no_gt_key() {
-            indiv.extend_from_slice(&[0x11, 3]); // key XF (idx 3)
+            typed_key(xf_key, &mut indiv); // key XF
             indiv.push(0x11); // one int8 per sample
             for i in 0..n_samples {
                 indiv.push((i % 7 + 1) as u8);
@@ -234,7 +269,7 @@ pub fn bcf_record(r: &Record, n_samples: usize) -> Vec<u8> {
         return out;
     }
     // GT
-    indiv.extend_from_slice(&[0x11, 2]); // key GT (idx 2)
+    typed_key(gt_key, &mut indiv); // key GT
     let parsed: Vec<Vec<(Option<u32>, bool)>> = r.gts.iter().map(|g| parse_gt(g)).collect();
     let max_ploidy = parsed.iter().map(|p| p.len()).max().unwrap_or(1);
     typed_int8_vec_header(max_ploidy, 1, &mut indiv);
@@ -250,7 +285,7 @@ pub fn bcf_record(r: &Record, n_samples: usize) -> Vec<u8> {
         }
     }
     if r.decorated {
-        indiv.extend_from_slice(&[0x11, 3]); // key XF (idx 3)
+        typed_key(xf_key, &mut indiv); // key XF
         indiv.push(0x11); // one int8 per sample
         for i in 0..n_samples {
             indiv.push((i % 7 + 1) as u8);
@@ -273,7 +308,7 @@ pub fn to_bcf(cs: &CallSet) -> (Vec<u8>, Vec<usize>) {
     out.extend_from_slice(&text);
     let mut bounds = vec![out.len()];
     for r in &cs.records {
-        out.extend_from_slice(&bcf_record(r, cs.samples.len()));
+        out.extend_from_slice(&bcf_record_of(r, cs.samples.len(), cs.extra_info_defs, cs.stale_an));
         bounds.push(out.len());
     }
     (out, bounds)
